@@ -449,7 +449,7 @@ func judgeQuery(r *vh.Runner, c *vh.Case, f *forest, q query) string {
 }
 
 func genC04(r *vh.Runner) {
-	nBatches := r.Pick(256, 12000)
+	nBatches := r.Pick(256, 40000)
 	perBatch := r.Pick(50, 125)
 	for b := 0; b < nBatches; b++ {
 		r.Case(fmt.Sprintf("forest/%d", b), map[string]any{"batch": b, "forests": perBatch}, func(c *vh.Case) {
